@@ -122,6 +122,24 @@ def musig_sign_steps():
     return out
 
 
+def partial_sign_passes_nonce():
+    """`psbt.musig2.partial_sign` hands the caller's own `sec_nonce` object to `musig2.sign`: the one use of the
+    name in the body is that argument (no copy, no rebinding, no conversion)."""
+    from btclib.psbt import musig2 as pm  # noqa: PLC0415
+    body, _ = _body(pm.partial_sign)
+    uses = [n for s in body for n in ast.walk(s) if isinstance(n, ast.Name) and n.id == "sec_nonce"]
+    calls = [s for s in body if isinstance(s, ast.Assign) and isinstance(s.value, ast.Call)
+             and _u(s.value.func) == "musig2.sign" and s.value.args and _u(s.value.args[0]) == "sec_nonce"]
+    return len(uses) == 1 and len(calls) == 1 and isinstance(uses[0].ctx, ast.Load)
+
+
+def musig_sign_keeps_name():
+    """`musig2.sign` never rebinds `sec_nonce` (every statement touching it is one the classifier recognised)."""
+    body, _ = _body(musig2.sign)
+    return not any(isinstance(n, ast.Name) and n.id == "sec_nonce" and isinstance(n.ctx, ast.Store)
+                   for s in body for n in ast.walk(s))
+
+
 # ---------------------------------------------------------------------------- Signer.sign_ / wipe
 def signer_sign_steps(mod):
     body, _ = _body(mod.Signer.sign_)
@@ -316,6 +334,31 @@ def serves_compares_curve():
     return any(isinstance(s, ast.If) and _u(s.test) == "ec != secp256k1" and _u(s.body[0]) == "return False" for s in body)
 
 
+# ---------------------------------------------------------------------------- lazy word-lists
+def wordlist_load_facts():
+    """(publication order inside the lock, whether anything outside the lock reads the loaded-flag, readers load first)"""
+    from btclib.mnemonic import mnemonic as mn  # noqa: PLC0415
+    body, _ = _body(mn.WordLists.load_lang)
+    withs = [s for s in body if isinstance(s, ast.With) and _u(s.items[0].context_expr) == "self._lock"]
+    if len(withs) != 1:
+        raise Unrecognised("WordLists.load_lang: not exactly one `with self._lock:`")
+    outside = [s for s in body if s is not withs[0]]
+    fast_path = any("_language_length" in _u(s) or "_wordlist" in _u(s) or "_index" in _u(s) for s in outside)
+    names = {"self._index[lang]": "index", "self._wordlist[lang]": "words", "self._language_length[lang]": "count"}
+    order = []
+    for n in ast.walk(withs[0]):
+        if isinstance(n, ast.Assign) and _u(n.targets[0]) in names:
+            order.append((n.lineno, names[_u(n.targets[0])]))
+    order = [x for _, x in sorted(order)]
+    if sorted(order) != ["count", "index", "words"]:
+        raise Unrecognised(f"WordLists.load_lang publishes {order}")
+    first = _u(withs[0].body[0]), _u(withs[0].body[1])
+    checks_under_lock = first == ("known = lang in self.languages",
+                                  "if known and self._language_length[lang] != 0:\n    return")
+    readers = all(_u(_body(getattr(mn.WordLists, m))[0][0]) == "self.load_lang(lang)" for m in ("wordlist", "language_length", "index"))
+    return order, fast_path, checks_under_lock and readers
+
+
 def _lst(ty, items):
     return "[" + ", ".join("." + i for i in items) + f"]"
 
@@ -326,6 +369,8 @@ def constants():
     txt += f"/-- the order of secp256k1 (`musig2.sign` reduces modulo it) -/\ndef N : Nat := {secp256k1.n}\n\n"
     txt += "/-- top-level statements of `btclib.ecc.musig2.sign`, in source order -/\n"
     txt += f"def musigSign : List SignStep := {_lst('SignStep', ['(' + s + ')' if ' ' in s else s for s in musig_sign_steps()]).replace('.(', '(.')}\n\n"
+    txt += "/-- `psbt.musig2.partial_sign` passes the caller's own nonce object to `musig2.sign`; `sign` never rebinds it -/\n"
+    txt += f"def partialSignPassesNonce : Bool := {b(partial_sign_passes_nonce() and musig_sign_keeps_name())}\n\n"
     for name, mod in (("dsa", dsa), ("ssa", ssa)):
         txt += f"/-- `{name}.Signer.sign_`, `wipe`, `__exit__`, `__enter__`, `__init__` -/\n"
         txt += f"def {name}SignerSign : List SignerStep := {_lst('SignerStep', signer_sign_steps(mod))}\n"
@@ -342,6 +387,12 @@ def constants():
     txt += f"def softwareSignerCloseSets : Bool := {b(cs)}\n"
     txt += f"def softwareSignerAssertOpenRaises : Bool := {b(ao)}\n"
     txt += f"def softwareSignerInitOpen : Bool := {b(io)}\n\n"
+    order, fast, readers = wordlist_load_facts()
+    txt += "/-- `WordLists.load_lang`: the order it publishes its three fields in (inside the lock), whether a statement outside\n"
+    txt += "    the lock reads them (a lock-free fast path), and whether every reader calls `load_lang` first -/\n"
+    txt += f"def wordlistPublishOrder : List Pub := {_lst('Pub', order)}\n"
+    txt += f"def wordlistFastPath : Bool := {b(fast)}\n"
+    txt += f"def wordlistReadersLoadFirst : Bool := {b(readers)}\n\n"
     grp = curve_eq_key(curve_group_mod.CurveGroup)
     crv = curve_eq_key(curve_mod.Curve, grp)
     eq_ok, hash_ok = curve_eq_hash_use_key()
